@@ -437,6 +437,13 @@ def _history_batch(sc, r):
             ops.append({'t': round(t, 3), 'op': 'expire', 'node': r.choice([who, who, 'A', 'B']), 'which': r.randrange(4), 'dir': r.choice(['in', 'out']),
                         'hard': int(r.random() < 0.25)})
             t += r.choice([0.7, 1.5, 3.0])
+        if i + 1 < len(ents) and r.random() < 0.4:
+            # while the endpoint waits for the answer to a request of its own (a rekey it starts now), its kernel raises an ACQUIRE that is of
+            # no concern (foreign index) and right behind it the ACQUIRE for the next entry: both are queued, the first is moot when the
+            # queue is served, the second must still be negotiated
+            ops.append({'t': round(t, 3), 'op': 'expire', 'node': who, 'which': r.randrange(4), 'dir': r.choice(['in', 'out']), 'hard': 0})
+            ops.append({'t': round(t + 0.002, 4), 'op': 'call', 'name': 'foreign_acquire', 'node': who, 'seed': r.randrange(2 ** 31)})
+            t += 0.004
     sc['ops'] = ops
     sc['fates'] = {}
     sc['fate_policy'] = {'mode': 'deliver'}
